@@ -20,7 +20,7 @@ CLASS_LAYER = [PA + 'Pauli.__matmul__#Pauli', PA + 'Pauli.__neg__', PA + 'Pauli.
                'pyclifford/circuit.py::CliffordGate.forward#generator_global', 'pyclifford/circuit.py::CliffordGate.backward#generator_global',
                'pyclifford/circuit.py::CliffordGate.forward#map_global'] + GATES[3:] + LOCAL_GATES + LOCAL_STATE + \
               [PA + '%s.__rmul__#%s' % (c, t) for c in ('Pauli', 'PauliList') for t in ('1', 'i', 'm1', 'mi')] + \
-              [PA + 'pauli#codes', PA + 'pauli#chars', PA + 'pauli#str']
+              [PA + 'pauli#codes', PA + 'pauli#chars', PA + 'pauli#str', PA + 'PauliList.__getitem__#mask', PA + 'PauliList.__getitem__#slice', PA + 'PauliList.__getitem__#index']
 
 # every kernel that currently has a discharged contract (their frame.* obligations are the C17 frame conditions)
 MEASURE_LEMMAS = ['ordp_parity', 'xzpartial_full', 'selacq_map', 'selacq_image', 'partnersum_acq', 'transform_preserves_acq', 'acq_diff2', 'onsite_flat', 'acq_bilinear', 'acq_antisym', 'ipow_parity', 'ordg_bits', 'acq_zero', 'ordg_acq', 'selacq_gram', 'acqsum_ext',
@@ -233,13 +233,14 @@ def C19(run):
 
 def C20(run):
     run.deductive(keys=[U + 'pauli_tokenize', PA + 'pauli#codes', PA + 'pauli#chars', PA + 'pauli#str',
-                        PA + 'Pauli.__neg__', PA + 'PauliList.__neg__', PA + 'PauliList.__getitem__#int'] +
+                        PA + 'Pauli.__neg__', PA + 'PauliList.__neg__', PA + 'PauliList.__getitem__#int', PA + 'PauliList.__getitem__#mask',
+                        PA + 'PauliList.__getitem__#slice', PA + 'PauliList.__getitem__#index'] +
                   [PA + '%s.__rmul__#%s' % (c, t) for c in ('Pauli', 'PauliList') for t in ('1', 'i', 'm1', 'mi')],
                   lemmas=['toks_range', 'toks_mono', 'toks_range_c', 'toks_mono_c', 'tokens_no_prefix', 'tokens_roundtrip', 'chars_codes_agree'])
     run.bounded_check('c20_formats', _b().c20_formats, Nmax=q(run, 3, 5))
     return 'other', ('deductive (all N, L): pauli_tokenize produces exactly the documented token codes; the parser pauli() on code arrays, lists of letters and strings of ANY length puts the operator symbols on the qubits in order, '
                      'skips prefix symbols and returns the phase they describe (loop invariant over the prefix counter h); lemmas: parsing a token row returns the tokenized string and phase, a string and the code array spelling the same symbols '
-                     'describe the same operator; selection by integer, negation and the four unit multiples are the documented list / phase arithmetic; bounded and exhaustive per N: dictionaries, printing, all '
+                     'describe the same operator; selection by integer, slice, boolean mask and index array, negation and the four unit multiples are the documented list / phase arithmetic; bounded and exhaustive per N: dictionaries, printing, all '
                      'strings x phases x accepted formats, print/parse and tokenize/parse round trips, indexing, negation, unit multiples')
 
 
@@ -265,5 +266,5 @@ TECHNIQUE = {
     'C17': 'deductive frame conditions (modifies clauses, freshness of results) of every function under contract (z3); bounded snapshot checks for copies and queries of the class layer',
     'C18': 'deductive contracts (z3): front / pauli_is_onsite / pauli_diagonalize1 / pauli_diagonalize2 / condense / clifford_rotation_gate (gate of G = rotation by G); bounded exhaustive diagonalisation check, SBRG',
     'C19': 'deductive contract on pauli_combine (sampled rows are ordered products); bounded membership / expansion / shadow checks',
-    'C20': 'deductive contracts (z3): pauli_tokenize, the parser pauli() on code arrays / letter lists / strings (loop invariant, all lengths), tokenize-then-parse and string-vs-codes lemmas, unit multiplication, negation, integer selection; exhaustive parse / print round trips per N for dictionaries and printing',
+    'C20': 'deductive contracts (z3): pauli_tokenize, the parser pauli() on code arrays / letter lists / strings (loop invariant, all lengths), tokenize-then-parse and string-vs-codes lemmas, unit multiplication, negation, selection by integer / slice / boolean mask / index array; exhaustive parse / print round trips per N for dictionaries and printing',
 }
